@@ -29,15 +29,9 @@ let c01_hunk body =
   | Ok (Some (ls, p)) -> show (L [Sym "some"; show_nums ls; N (if p then 1 else 0)])
   | Panic -> "panic"
 
-let c01_normalize body =
-  match normalize_diff_path_token (str_of (one body)) with
-  | Ok s -> show (L [Sym "ok"; show_str s])
-  | Panic -> "panic"
+let c01_normalize body = show (L [Sym "ok"; show_str (normalize_diff_path_token (str_of (one body)))])
 
-let c01_unescape body =
-  match unescape_git_path (str_of (one body)) with
-  | Ok s -> show (L [Sym "ok"; show_str s])
-  | Panic -> "panic"
+let c01_unescape body = show (L [Sym "ok"; show_str (unescape_git_path (str_of (one body)))])
 
 let c01_lossy body = show (L [Sym "ok"; show_str (dec (str_of (one body)))])
 
@@ -64,14 +58,14 @@ let file_of x = match list x with
         fd_oid_old = str_of oo; fd_oid_new = str_of on; fd_hunks = List.map hunk_of (list hs) }
   | _ -> failwith "file"
 
-(* in: QP DOC   out: (text BYTES) (wf b) (known b) (added MAP) (ins MAP) *)
+(* in: QP DOC   out: (text BYTES) (wf b) (added MAP) (ins MAP) *)
 let c01_render body =
   match parse_many body with
   | [qp; d] ->
       let d = List.map file_of (list d) in
-      Printf.sprintf "%s (wf %s) (known %s) %s %s"
+      Printf.sprintf "%s (wf %s) %s %s"
         (show (L [Sym "text"; show_str (render (num qp = 1) d)]))
-        (bool_s (wf_doc d)) (bool_s (known_C01_fmt d))
+        (bool_s (wf_doc d))
         (show (L [Sym "added"; show_map (added_lines d)]))
         (show (L [Sym "ins"; show_map (insertion_lines d)]))
   | _ -> failwith "c01-render: bad case"
